@@ -16,6 +16,9 @@ def check(ctx):
         "(at most once); R8 the collector thread loops over handle_commands with a sleep fed by report_interval, and "
         "flush() runs one cycle on a joined thread; R9 Config::default() is the non-cancelable configuration and the builder "
         "methods set exactly the field they name.")
+    ctx.explanation += (" R10 the delivery bundle: queues drained to their end with the registry filtered in place, closed = closed and empty, "
+                        "stale sets kept unless cancelable, shared sets fanned out to every parent, one sampling filter at the choke point, a scope "
+                        "records iff any parent is sampled, setting a local parent opens a scope, no-op only without a recording parent.")
     ctx.not_decided = ("delivery for every interleaving of producer pushes with the sequential drain; the 'about one "
                        "report interval' latency; memory ordering inside rtrb; loss when the ring is full (C09).")
     facts = ctx.facts("E")
@@ -37,3 +40,6 @@ def check(ctx):
     provrules.rule_config(ctx, facts, "R9")
     if c.need("R8"):
         collector.rule_cycle_exists(ctx, c, "R8")
+    # what delivery as such needs (see props/common.py)
+    from .common import delivery_bundle
+    delivery_bundle(ctx, ctx.facts("E"), "R10")
